@@ -4815,6 +4815,18 @@ class PyCdlib:
                                                         fmode, boot_catalog_old,
                                                         **kwargs)
 
+        if isinstance(old_rec, dr.DirectoryRecord) and not kwargs.get('udf_new_path'):
+            # A file larger than one extent is a chain of records, each with
+            # its own inode; the link needs a record for every one of them.
+            cont = old_rec.data_continuation
+            while cont is not None:
+                num_bytes_to_add += self._add_hard_link_to_inode(cont.inode,
+                                                                 cont.get_data_length(),
+                                                                 fmode, False,
+                                                                 multi_extent=True,
+                                                                 **kwargs)
+                cont = cont.data_continuation
+
         self._finish_add(0, num_bytes_to_add)
 
     def rm_hard_link(self, iso_path=None, joliet_path=None, udf_path=None):
